@@ -5,6 +5,7 @@ use crate::Args;
 pub fn run(a: &Args) -> i32 {
     let mut run = Run::new("C02", a.tier, a.seed, "fault_enumeration");
     crate::scenarios::run_for(&mut run, "C02");
+    crate::matrix::run_for(&mut run, "C02");
     let (ev, dn, samples) = crate::props::crash::run_part(&mut run, a, "C02");
     run.assumptions = vec![
         "crash points = every file-system operation boundary of the traced executions (LD_PRELOAD recorder), plus byte cuts inside unsynced WAL / value-log writes".into(),
